@@ -126,7 +126,8 @@ def plan(prop, tier):
         P["sim"].append(("c02_walk_pre", C(MaxBatches=5, MaxPokes=2, SimLen=18, MaxSnaps=1, MaxReopens=1, InitKeys="{1}"), 60 if q else 400))
         P["dims"] = {"c02_walk_pre": [dims("store", preload=[1], rolling=True), dims("store", preload=[1], compaction="force"), dims("store", preload=[1], rolling=True, **partial())],
                      "c02_walk": [dims("store", compaction="force", rolling=True), dims("store", compaction="allow", levelMaxSegs=1, levelMult=2),
-                                  dims("store", cachePersisted=False, deferredSort=True, rolling=True), dims("app", rolling=True), dims("store", rolling=True, **partial())],
+                                  dims("store", cachePersisted=False, deferredSort=True, rolling=True), dims("app", rolling=True), dims("store", rolling=True, **partial()),
+                                  dims("store", cachePersisted=True, rolling=True), dims("app", cachePersisted=True, rolling=True)],
                      "c02_walk_kids": [dims("store", "a", 1, compaction="force"), dims("store", "a", 1)],
                      "c02_walk_mem": [dims("mem")]}
         P["relevant"] = r"^heldsnap|^heldstore"
@@ -134,11 +135,13 @@ def plan(prop, tier):
                      "every open snapshot (and its child snapshots) is fully re-read after every later step; non-trivial = two or more sections non-empty at some observation")
     elif prop == "C04":
         P["exhaustive"] = [("c04_small", C(NKeys=1, MaxBatches=2, MaxOps=1, MaxReopens=1, MaxPokes=0), ["ViewIsRef", "StoreIsPrefix", "Structure"])]
-        P["sim"] = [("c04_walk", C(MaxBatches=6, MaxPokes=2, SimLen=24, MaxReopens=2, OpAlpha='{"s1","s2","se","d"}'), 100 if q else 600),
-                    ("c04_walk_kids", C(Tree='"aa"', NKeys=1, OpAlpha='{"s1","se","d"}', MaxOps=1, MaxBatches=6, MaxPokes=2, SimLen=24, MaxReopens=2), 80 if q else 500)]
+        P["sim"] = [("c04_walk", C(MaxBatches=6, MaxPokes=2, SimLen=24, MaxReopens=2, OpAlpha='{"s1","s2","se","d"}'), 60 if q else 600),
+                    ("c04_walk_kids", C(Tree='"aa"', NKeys=1, OpAlpha='{"s1","se","d"}', MaxOps=1, MaxBatches=6, MaxPokes=2, SimLen=24, MaxReopens=2), 50 if q else 500)]
         P["edges"] = []
-        P["sim"].append(("c04_walk_pre", C(NKeys=3, MaxOps=1, MaxBatches=8, MaxPokes=1, SimLen=34, MaxReopens=2, OpAlpha='{"s1","s2","d"}', InitKeys="{1}"), 200 if q else 1200))
-        P["dims"] = {"c04_walk": [dims("store", diskCheck=True), dims("store", compaction="force", diskCheck=True), dims("store", compaction="allow", levelMaxSegs=2, levelMult=2), dims("store", noSync=True, deferredSort=True),
+        P["sim"].append(("c04_walk_pre", C(NKeys=3, MaxOps=1, MaxBatches=8, MaxPokes=1, SimLen=34, MaxReopens=2, OpAlpha='{"s1","s2","d"}', InitKeys="{1}"), 120 if q else 1200))
+        P["sim"].append(("c04_walk_kids_pre", C(Tree='"aa"', NKeys=1, OpAlpha='{"s1","s2","d"}', MaxOps=1, MaxBatches=6, MaxPokes=1, SimLen=24, MaxReopens=2, InitKids='{"a","a/a"}'), 80 if q else 500))
+        P["dims"] = {"c04_walk_kids_pre": [dims("store", "aa", 1, preloadKids=["a", "a/a"], diskCheck=True), dims("store", "aa", 1, preloadKids=["a", "a/a"], compaction="force", diskCheck=True)],
+                     "c04_walk": [dims("store", diskCheck=True), dims("store", compaction="force", diskCheck=True), dims("store", compaction="allow", levelMaxSegs=2, levelMult=2), dims("store", noSync=True, deferredSort=True),
                                   dims("store", **partial())],
                      "c04_walk_pre": [dims("store", nkeys=3, preload=[1], **partial(levelMaxSegs=1)), dims("store", nkeys=3, preload=[1], **partial())],
                      "c04_walk_kids": [dims("store", "aa", 1), dims("store", "aa", 1, compaction="force"), dims("store", "aa", 1, compaction="allow", levelMaxSegs=1, levelMult=2),
@@ -241,6 +244,10 @@ def plan(prop, tier):
         if not q:
             P["sim"].append(("c19_walk_lim28", C(NKeys=1, MaxBatches=3, MaxOps=1, MaxPokes=1, SimLen=10, MaxReopens=1, OpAlpha='{"s1","s2","d"}'), 6))
             P["dims"]["c19_walk_lim28"] = [dims("store", nkeys=1, concr="limits28", shards=2), dims("store", nkeys=1, concr="limits28", allocBatches=True, compaction="force", shards=2)]
+        # persisted segments opened with a key index (SegmentKeysIndexMinKeyBytes lowered) of a quota that runs out mid-way, keys of very different lengths
+        P["sim"].append(("c19_walk_idx", C(NKeys=6, MaxOps=6, MaxBatches=4, MaxPokes=1, SimLen=16, MaxReopens=1, OpAlpha='{"s1","s2","d"}'), 60 if q else 500))
+        P["dims"]["c19_walk_idx"] = [dims("store", nkeys=6, concr="edge", seed=sd0 + i, indexMinKeyBytes=1, indexMaxBytes=mx, compaction=c)
+                                     for i, (mx, c) in enumerate([(12, "force"), (24, "force"), (28, "force"), (32, "force"), (36, "force"), (40, "force"), (32, "disable"), (24, "allow")])]
         P["relevant"] = r"^(snapshot|coll|lower|reopen|heldsnap|batch)"
         P["rule"] = ("the data-path behaviours replayed under seeded adversarial concretisations (empty key, 0x00/0xFF, magic-like bytes, prefix-sharing keys, empty values); "
                      "non-trivial = two or more sections non-empty at some observation")
@@ -269,6 +276,8 @@ def plan(prop, tier):
         P["edges"] = []
         P["leads"] = [("c15_lead_refs", check_store.C(MaxBatches=3, MaxSnaps=1, MaxReopens=1, Kinds='{"append","full"}'), ["ChildFootersNotReleased"], ["LeadAllClosedAllReleased"], "MCStore.tla")]
         P["dims"] = {"c15_walk": [dims("store", preload=[1], leakCheck=True, rolling=True), dims("store", preload=[1], leakCheck=True, compaction="force", closeOrder="storeFirst"),
+                                  dims("store", preload=[1], leakCheck=True, rolling=True, cachePersisted=True), dims("store", preload=[1], leakCheck=True, rolling=True, compaction="force"),
+                                  dims("store", preload=[1], leakCheck=True, rolling=True, **partial()), dims("store", preload=[1], leakCheck=True, rolling=True, **partial(levelMaxSegs=3)),
                                   dims("store", preload=[1], leakCheck=True, compaction="force", keepFiles=True)],
                      "c15_walk_kids": [dims("store", "aa", 1, leakCheck=True), dims("store", "aa", 1, leakCheck=True, compaction="force"),
                                        dims("store", "aa", 1, leakCheck=True, compaction="allow", levelMaxSegs=1, levelMult=2, closeOrder="storeFirst")],
@@ -380,7 +389,8 @@ def classify(rep, prop, relevant, findings, results, behs, d, cfgname):
                 mm["step_whats"] = whats
                 if reported:
                     break
-                if not rx.search(mm["what"] + ("#child" if mm.get("path") else "")):
+                # (a panic of the library that takes the process down is reported whatever the property)
+                if not (rx.search(mm["what"] + ("#child" if mm.get("path") else "")) or mm["what"] == "crash.panic"):
                     continue
                 m = re.search(r" pred=(.*)$", mm.get("want", ""))
                 if m:
